@@ -18,11 +18,17 @@ pub fn install_hook() {
     std::panic::set_hook(Box::new(|info| {
         let loc = info.location().map(|l| l.file().to_string()).unwrap_or_default();
         // keep crate-relative file names stable: strip everything up to `src/` or the registry dir
+        // stable, checkout-independent file names: `<crate>/src/...` for registry crates, `norad/src/...` for the
+        // crate under test wherever its working tree lives (/repo or a scratch worktree)
         let file = match loc.rfind("/src/") {
             Some(i) => {
                 let head = &loc[..i];
-                let krate = head.rsplit('/').next().unwrap_or("");
-                format!("{}{}", if krate == "repo" || krate.starts_with("rw") || !krate.contains('-') { "norad".to_string() } else { krate.to_string() }, &loc[i..])
+                let krate = if head.contains("/.cargo/registry/") || head.contains("/rustc/") {
+                    head.rsplit('/').next().unwrap_or("").to_string()
+                } else {
+                    "norad".to_string()
+                };
+                format!("{}{}", krate, &loc[i..])
             }
             None => loc.clone(),
         };
